@@ -62,6 +62,7 @@ type Exec struct {
 	ufDecl  map[string]string
 	globals map[*ssa.Global]uint64
 	recording int
+	preSk   map[*CExpr]V
 	maxPaths int
 	budget  int
 }
@@ -106,6 +107,7 @@ type State struct {
 	nlocal   int
 	regions  int
 	allocs   []string // allocation size terms (elements), for the allocation bound
+	pool     map[int][]string // instantiation terms by width, for callee quantifiers
 }
 
 func (st *State) fork() *State {
@@ -158,6 +160,10 @@ func (st *State) fork() *State {
 	}
 	n.inputs = append([]inputSym(nil), st.inputs...)
 	n.allocs = append([]string(nil), st.allocs...)
+	n.pool = map[int][]string{}
+	for k, v := range st.pool {
+		n.pool[k] = append([]string(nil), v...)
+	}
 	return n
 }
 
@@ -299,4 +305,18 @@ func sortedKeys(m map[string]bool) []string {
 	}
 	sort.Strings(out)
 	return out
+}
+
+func (st *State) addPool(w int, t string) {
+	if st.pool == nil {
+		st.pool = map[int][]string{}
+	}
+	for _, e := range st.pool[w] {
+		if e == t {
+			return
+		}
+	}
+	if len(st.pool[w]) < 12 {
+		st.pool[w] = append(st.pool[w], t)
+	}
 }
